@@ -630,9 +630,19 @@ func validateNames(b *backend, data *inputBundle, names []string) string {
 					}
 				}
 
+				// A domain glob is matched against the domain of an e-mail
+				// address, like the bare and subdomain rules above; matched
+				// against the whole address its '*' would swallow the '@'
+				// (ftp*.example.com would admit ftp@victim.example.com). A
+				// pattern that itself names a local part still sees the
+				// whole address.
+				globName := name
+				if isEmail && !strings.Contains(currDomain, "@") {
+					globName = emailDomain
+				}
 				if data.role.AllowGlobDomains &&
 					strings.Contains(currDomain, "*") &&
-					glob.Glob(currDomain, name) {
+					glob.Glob(currDomain, globName) {
 					valid = true
 					break
 				}
